@@ -1,7 +1,7 @@
 """Which contract families decide which property, and at what claimed level."""
 PROPS = {
     'C03': {
-        'families': ['contracts.optimizer', 'contracts.optfold', 'contracts.native'],
+        'families': ['contracts.optimizer', 'contracts.optfold', 'contracts.sigsim', 'contracts.native'],
         'level': 'other',
         'technique': 'frame obligation by a conservative def-use scan of the real AST + contract on the fallback path; bounded native stand-in for result equivalence',
         'text': 'Frame obligation "processing does not alter the evolution definitions" decided by a conservative scan of every store '
@@ -38,7 +38,7 @@ PROPS = {
         'not_decided': ['renames of M2M tables and model renames: one-line ALTER TABLE RENAME statements (bounded native only)'],
     },
     'C14': {
-        'families': ['contracts.execution', 'contracts.batches', 'contracts.native'],
+        'families': ['contracts.execution', 'contracts.batches', 'contracts.sigsim', 'contracts.native'],
         'level': 'other',
         'technique': 'bounded native run of the preview/determinism contract (stand-in; order-insensitivity obligations in progress)',
         'text': 'evolve --sql preview compared statement by statement with the --execute trace, and --sql/--hint output compared across '
